@@ -14,9 +14,17 @@
      &str source, arbitrary bytes otherwise); `C17_parse_print_valid` — parse then print is valid.
   Proved here in addition: every byte at which a scanner may stop is ASCII; the checked conversions
   reject invalid bytes.
+  The clause "INPUT that is not valid UTF-8 inside a string is rejected" (as opposed to: what is returned
+  is valid): `C17_elisp_backslash_continuation_rejected` (Proofs/Utf8Input.lean) — under the Emacs Lisp
+  string syntax a backslash followed by a continuation byte is an error in every state (repair 29,
+  /repo c74523a; `C17_repair29_input_rejected` is the input that exposed it); the clause as a whole is
+  FALSE of the model and of the code, `C17_numeric_escape_completes_sequence` (recorded finding
+  `[numeric escape completes a sequence]`): `"` C3 `\xa9"` is not valid UTF-8 and is read as `é`.
+  That clause is decided by the direct oracle of the correspondence run.
 -/
 import LexprModel.Proofs.Utf8Valid
 import LexprModel.Proofs.Utf8Parse
+import LexprModel.Proofs.Utf8Input
 namespace Lexpr
 namespace Parse
 
@@ -44,6 +52,25 @@ theorem C17_finishStr_checked (bytes : List UInt8) (s : St) (h : s.rd.mode ≠ .
 theorem C17_finishStr_elisp (bytes : List UInt8) (s : St) (hv : Utf8.valid bytes = false) :
     ∃ l c, finishStr true bytes s = .err (.syntax .invalidUnicodeCodePoint l c) s := by
   simp [finishStr, getMode, bind, P.bind, hv, errAt]
+
+/-- a backslash followed by a UTF-8 continuation byte is rejected by `parse_elisp_escape`, whatever has
+    been read so far (the arm added by repair 29) -/
+theorem C17_elisp_backslash_continuation_rejected (fuel : Nat) (acc : List UInt8) (S : St) (c : UInt8)
+    (t : List UInt8) (h : S.rd.rest = c :: t) (hc : 128 ≤ c ∧ c ≤ 191) :
+    ∃ l k S', parseElispEscape fuel acc S = .err (.syntax .invalidUnicodeCodePoint l k) S' :=
+  elisp_escape_continuation_rejected fuel acc S c t h hc
+
+/-- `"` F3 9F BB `\` 96 `"` (accepted as U+DFED6 before repair 29) is rejected -/
+theorem C17_repair29_input_rejected :
+    Image.rejectsWith Image.cfgEl [0x22, 0xF3, 0x9F, 0xBB, 0x5C, 0x96, 0x22] .invalidUnicodeCodePoint = true :=
+  ex_backslash_continuation_rejected
+
+/-- the recorded finding: ill-formed input completed by a numeric escape is accepted -/
+theorem C17_numeric_escape_completes_sequence :
+    Utf8.valid [0x22, 0xC3, 0x5C, 0x78, 0x61, 0x39, 0x22] = false ∧
+    Image.parsesTo Image.cfgEl [0x22, 0xC3, 0x5C, 0x78, 0x61, 0x39, 0x22] (.string [0xC3, 0xA9]) = true ∧
+    Image.parsesTo Image.cfgEl [0x22, 0xC3, 0xA9, 0x22] (.string [0xC3, 0xA9]) = true :=
+  numeric_escape_completes_sequence
 
 example : Utf8.valid [0xCE, 0xBB, 40, 120, 41] = true ∧ Utf8.valid [0xCE] = false ∧ Utf8.incomplete [0xCE] = true ∧
     Utf8.valid [0xC0, 0x80] = false ∧ Utf8.valid [0xED, 0xA0, 0x80] = false := by decide
